@@ -10,6 +10,7 @@
   them the property is decided per source by `keepsCheck` on the implementation's output (level: partial).
 -/
 import Kitoken.Proofs.ConvertLemmas
+import Kitoken.Theorems.C15b
 namespace Kitoken.C15
 
 open Kitoken Kitoken.Spec Kitoken.Convert
